@@ -89,3 +89,16 @@ def okJ (fields : List (String × Json)) : Json := Json.mkObj (("ok", Json.bool 
 def errJ (e : String) : Json := Json.mkObj [("ok", Json.bool false), ("err", Json.str e)]
 
 end Drv
+
+/-! JSON rendering of the result types the translator emits (used by the generated `Driver/GenEval/*.lean`) -/
+namespace Drv
+class ToJ (α : Type) where
+  toJ : α → Lean.Json
+instance : ToJ Int := ⟨intJ⟩
+instance : ToJ Bool := ⟨Lean.Json.bool⟩
+instance : ToJ Unit := ⟨fun _ => Lean.Json.arr #[]⟩
+instance {α β} [ToJ α] [ToJ β] : ToJ (α × β) := ⟨fun p => Lean.Json.arr #[ToJ.toJ p.1, ToJ.toJ p.2]⟩
+instance {α} [ToJ α] : ToJ (Option α) := ⟨fun o => match o with | none => Lean.Json.arr #[] | some v => ToJ.toJ v⟩
+instance {α} [ToJ α] : ToJ (Except String α) :=
+  ⟨fun o => match o with | .error e => Lean.Json.mkObj [("exc", Lean.Json.str e)] | .ok v => ToJ.toJ v⟩
+end Drv
